@@ -4,9 +4,10 @@ P=$1; PATCH=$2; TIER=${3:-quick}
 cd /verif
 if ! git -C /repo apply --check $PATCH 2>/dev/null; then echo "RESULT $P $(basename $(dirname $PATCH)) patch-does-not-apply"; exit 2; fi
 git -C /repo apply $PATCH
+cp evidence/$P.json /tmp/evidence-$P.bak 2>/dev/null
 rm -f replays/$P-*
 OUT=$(timeout 1800 ./check $P $TIER 2>&1); RC=$?
-git -C /repo checkout -q -- . ; git -C /repo clean -fdq -e out 2>/dev/null
+git -C /repo checkout -q -- . ; cp /tmp/evidence-$P.bak evidence/$P.json 2>/dev/null; git -C /repo clean -fdq -e out 2>/dev/null
 V=$(echo "$OUT" | grep -E "^VIOLATION" | head -2 | tr '\n' ' ')
 B=$(echo "$OUT" | grep -E "broken \[" | head -4 | sed 's/\[check\] //' | tr '\n' ';')
 W=$(grep -hE "^# (signature|what):" replays/$P-*.txt 2>/dev/null | head -2 | tr '\n' ' ')
